@@ -4,8 +4,8 @@ from __future__ import annotations
 import typed
 
 ID = "C07"
-THEOREMS = ["fill_matches_bind", "fillLoop_tail", "fillLoop_skip", "fill_missing_required", "operators_untouched", "findKeyword_eq"]
-LEANCHECKER_MODULES = ["Fadl.Props.C07"]  # re-checked by leanchecker in the thorough tier
+THEOREMS = ["follow_elabSound", "follow_emits_elab", "streamOp_emits_elab", "methodElab_full_positional", "candElab_full", "fillDefaults_full", "fillLoop_full", "follow_refusals_are_declared", "fill_matches_bind", "fillLoop_tail", "fillLoop_skip", "fill_missing_required", "operators_untouched", "findKeyword_eq"]
+LEANCHECKER_MODULES = ["Fadl.Props.C07", "Fadl.Props.C07Elab"]  # re-checked by leanchecker in the thorough tier
 RULE = (
     "generated class models (gen/classes.py: Trk, Cal, Jet, Vec[T](Iterable[T]), JVec(Vec[Jet]), Evt, an optional registered "
     "collection class, two registered functions; 0-4 parameters per method with a random suffix of defaults of int/float/"
@@ -15,7 +15,7 @@ RULE = (
     "dictionary fields, lambda parameter names re-used across nesting levels, method names shared between classes; "
     "non-trivial = every case; distinct = distinct (class model, operator, lambda source)"
 )
-EXPLANATION = ("Theorems: fill_matches_bind (the normalised call = the user's positional arguments followed, in declaration order, by what Python's binding gives for every further parameter - keyword value, else declared default - with the consumed keywords removed; any number of parameters, any keyword order), fill_missing_required (ValueError), operators_untouched (Select/Where/SelectMany calls inside lambdas keep the user's arguments: the internal known_types parameter is skipped). Correspondence: the whole follower (ObjectStream.Select/SelectMany/Where on typed datasets over generated class models) vs the compiled Lean streamOp: emitted lambda, item type, MetaData list, callback log. Oracle on the implementation: the generator computes, from the signature alone (positional prefix + shuffled keywords + declared defaults), the fully positional text every typed call site must have at every nesting depth; missing required parameter => ValueError.")
+EXPLANATION = ("Main theorem follow_elabSound (Props/C07Elab.lean; induction over the fuel through all five mutually recursive functions of the follower model): for EVERY class model, environment, stream state and expression, whenever the follower accepts the expression the tree it returns is elabOf of the expression THE USER WROTE (Model/ElabSpec.lean: a compositional function of the declarations, the types in scope and the expression; no stream state) - so at every nesting depth each call node of the output is the elaboration of the corresponding call node of the input. For a method call on a receiver of declared type the elaboration is the deciding candidate's call handed to the class-level and then the method-level callback, and methodElab_full_positional / candElab_full / fillDefaults_full / fillLoop_full prove that this call carries every declared parameter of the candidate's method positionally, after the positional arguments the user wrote; registered functions likewise. follow_refusals_are_declared (Props/C08Complete.lean): a refusal of the follower, in particular 'Argument x is required' for an omitted parameter without default at any depth, is a refusal of the declared-type checker on the expression as written. The specification is executed too: driver op streamOpElab is compared with the lambda the implementation emits for every accepted generated lambda (unit streamOpElab(spec); spec:emitted-lambda-compared). Local theorems: fill_matches_bind (the normalised call = the user's positional arguments followed, in declaration order, by what Python's binding gives for every further parameter - keyword value, else declared default - with the consumed keywords removed; any number of parameters, any keyword order), fill_missing_required (ValueError), operators_untouched (Select/Where/SelectMany calls inside lambdas keep the user's arguments: the internal known_types parameter is skipped). Correspondence: the whole follower (ObjectStream.Select/SelectMany/Where on typed datasets over generated class models) vs the compiled Lean streamOp: emitted lambda, item type, MetaData list, callback log. Oracle on the implementation: the generator computes, from the signature alone (positional prefix + shuffled keywords + declared defaults), the fully positional text every typed call site must have at every nesting depth; missing required parameter => ValueError.")
 ASSUMPTIONS = ["the follower's net effect on nested lambdas is modelled functionally (DESIGN 4.6); typing internals are replaced by the Ty/Model algebra (single-inheritance chains)"]
 
 
